@@ -18,6 +18,8 @@ ASSUMPTIONS = [
 ]
 MEMO = {"edges", "_simplex_areas", "_face_centroids"}
 MOVERS = {"to_hoomd", "inertia_tensor", "save:STL"}
+TINY = 2.0 ** -34
+UNIT = [1.0]      # length unit of the scenario being judged (absolute allowances scale with it)
 
 
 def queries(obj):
@@ -94,7 +96,7 @@ def arrays_same(now, then, tol):
         return False
     if tol == 0:
         return bool(np.array_equal(now, then))
-    return bool(np.allclose(now.astype(float), then.astype(float), rtol=0, atol=tol * (1 + float(np.max(np.abs(then.astype(float)))) if then.size else 0)))
+    return bool(np.allclose(now.astype(float), then.astype(float), rtol=0, atol=tol * (UNIT[0] + float(np.max(np.abs(then.astype(float)))) if then.size else 0)))
 
 
 def memo_names(obj):
@@ -127,7 +129,7 @@ def snap_close(a, b, tol, memo=frozenset(MEMO)):
                 return False, k
         else:
             if isinstance(x, float) and isinstance(y, float):
-                if not (x == y or abs(x - y) <= tol * (1 + abs(x))):
+                if not (x == y or abs(x - y) <= tol * (UNIT[0] + abs(x))):
                     return False, k
             else:
                 try:
@@ -156,14 +158,17 @@ def run(chk):
             tilts.append((True, False))
         if cls == "Polygon":
             tilts.append((True, True))        # tilted and listed clockwise about an explicit normal (signed_area < 0)
-        for tilt, opp in tilts:
-            proto, _ = Z.make(cls, tilt=tilt, opposing=opp)
+        # any size: also in a length unit of 2^-34 (2^-28 for the polygon classes: below ~2^-33 the vendored sweep line of Polygon.__init__
+        # trips its absolute epsilons - recorded finding sweepline-large-coordinates, second witness)
+        tilts = [(t_, o_, 1.0) for t_, o_ in tilts] + [(False, False, TINY * (64.0 if cls in ("Polygon", "ConvexPolygon", "ConvexSpheropolygon") else 1.0))]
+        for tilt, opp, unit in tilts:
+            proto, _ = Z.make(cls, tilt=tilt, opposing=opp, unit=unit)
             Q = queries(proto)
             names = sorted(Q)
             # which queries are defined at all for this shape
             ok_names = []
             for n in names:
-                o, _ = Z.make(cls, tilt=tilt, opposing=opp)
+                o, _ = Z.make(cls, tilt=tilt, opposing=opp, unit=unit)
                 st, _ = C.excname(Q[n], o, [])
                 if st == "ok":
                     ok_names.append(n)
@@ -175,8 +180,10 @@ def run(chk):
                 keep = {(a, a) for a in ok_names} | {(a, b) for a in ok_names for b in ("to_hoomd", "inertia_tensor", "vertices", "centroid") if b in ok_names}
                 keep |= {(b, a) for (a, b) in keep}
                 pairs = sorted(set(pairs[i] for i in idx) | keep)
+            if unit != 1.0:      # (the rescaled scenario: repeated queries and the pairs with a move-and-restore query)
+                pairs = [(a, b) for a, b in pairs if a == b or a in MOVERS or b in MOVERS]
             for a, b in pairs:
-                obj, _ = Z.make(cls, tilt=tilt, opposing=opp)
+                obj, _ = Z.make(cls, tilt=tilt, opposing=opp, unit=unit)
                 held = handed_out(obj)
                 snap = Z.state_snapshot(obj)
                 args = []
@@ -184,10 +191,11 @@ def run(chk):
                 st2, r2 = C.excname(Q[b], obj, args)
                 chk.case([cls, a, b, tilt], True)
                 chk.count("cls:" + cls)
-                desc = dict(cls=cls, first=a, second=b, tilted=tilt)
+                desc = dict(cls=cls, first=a, second=b, tilted=tilt, unit=unit)
                 if st1 != "ok" or st2 != "ok":
                     chk.violation("query-raised-after-query", dict(desc, outcomes=[st1, st2])); continue
                 tol = 1e-12 if (a in MOVERS or b in MOVERS) else 0
+                UNIT[0] = unit
                 same, why = snap_close(snap, Z.state_snapshot(obj), tol, memo_names(obj))
                 if not same:
                     chk.violation("state-changed", dict(desc, attribute=why)); continue
@@ -199,7 +207,7 @@ def run(chk):
                         chk.violation("handed-out-array-modified", dict(desc, array=n,
                                                                         before=str(cp)[:300], after=str(ref)[:300])); break
                 if a == b:
-                    if (not Z.values_close(Z.canon(r1), Z.canon(r2), 1e-12, 1e-11 if a in MOVERS else 0) and not isinstance(r1, bytes)
+                    if (not Z.values_close(Z.canon(r1), Z.canon(r2), 1e-12, 1e-11 * unit if a in MOVERS else 0) and not isinstance(r1, bytes)
                             and not (a.startswith("minimal_bounding") and miniball_reagrees(obj, a, r1, r2))):
                         chk.violation("repeated-query-differs", dict(desc, first_value=str(r1)[:200], second_value=str(r2)[:200]))
                     if isinstance(r1, bytes) and r1 != r2:
@@ -209,7 +217,7 @@ def run(chk):
 
 def replay(chk, rep):
     d = rep["detail"]
-    obj, _ = Z.make(d["cls"], tilt=d.get("tilted", False))
+    obj, _ = Z.make(d["cls"], tilt=d.get("tilted", False), unit=d.get("unit", 1.0))
     Q = queries(obj)
     held = handed_out(obj)
     args = []
